@@ -754,3 +754,22 @@ T('C07', 'rho-seed-from-the-standard-bound', [(CDP, "    rhomin=0.0 #maintain cd
 K('C20', 'infinite-epsilon-first-maximiser', [(AG, "        eps = np.finfo(np.float64).max\n", "        probas = np.zeros(q.size)\n        probas[q.argmax()] = 1.0\n        return prng.choice(q.size, p=probas)\n")], 'noiseless-limit')
 T('C20', 'infinite-epsilon-uniform-over-maximisers', [(AG, "        eps = np.finfo(np.float64).max\n", "        probas = (q == q.max()).astype(float)\n        return prng.choice(q.size, p=probas / probas.sum())\n")])
 
+# ------------------------------------------------------------------ round 11: the rules added for its pairs
+K('C15', 'contains-compares-sizes-too', [(DOM, "        return set(other.attrs) <= set(self.attrs)\n", "        return other.config.items() <= self.config.items()\n")], 'containment')
+T('C15', 'contains-by-key-views', [(DOM, "        return set(other.attrs) <= set(self.attrs)\n", "        return other.config.keys() <= self.config.keys()\n")])
+K('C14', 'log-floored-not-shifted', [(F, "            return Factor(self.domain, np.log(self.values + 1e-100))\n", "            return Factor(self.domain, np.log(np.maximum(self.values, 1e-100)))\n")], 'log-form')
+K('C14', 'scalar-product-clipped-by-the-scalar', [(F, "            new_values = np.nan_to_num(other*self.values)\n",
+                                                     "            new_values = other*self.values\n            if other == 0 or not np.isfinite(other):\n                new_values = np.nan_to_num(new_values)\n")], 'scalar-cells')
+T('C14', 'scalar-product-clipped-when-needed', [(F, "            new_values = np.nan_to_num(other*self.values)\n",
+                                                   "            new_values = other*self.values\n            if not np.isfinite(new_values).all():\n                new_values = np.nan_to_num(new_values)\n")])
+K('C12', 'neighbors-from-the-edges-only', [(JT, "        return { i : set(self.tree.neighbors(i)) for i in self.maximal_cliques() }\n",
+                                              "        nbrs = {}\n        for i, j in self.tree.edges():\n            nbrs.setdefault(i, set()).add(j)\n            nbrs.setdefault(j, set()).add(i)\n        return nbrs\n")], 'neighbors-complete')
+T('C12', 'neighbors-pre-seeded', [(JT, "        return { i : set(self.tree.neighbors(i)) for i in self.maximal_cliques() }\n",
+                                     "        nbrs = { i : set() for i in self.maximal_cliques() }\n        for i, j in self.tree.edges():\n            nbrs[i].add(j)\n            nbrs[j].add(i)\n        return nbrs\n")])
+K('C16', 'lbp-skips-unary-factors', [(FG, "                pre = sum(mu_n[c][cl] for c in cl)\n", "                if len(cl) == 1:\n                    continue\n                pre = sum(mu_n[c][cl] for c in cl)\n")], 'skipped-messages')
+K('C16', 'saturated-beliefs-children-only', [(RG, "                    for rd in self.descendants[r]:\n", "                    for rd in self.children[r]:\n")], 'gbp-message-sets')
+K('C18', 'oracle-constructor-unknown-keyword', [(LI, "            model = FactorGraph(self.domain, cliques, total, convex=False, iters=self.inner_iters)\n",
+                                                    "            model = FactorGraph(self.domain, cliques, total, convex=False, iters=self.inner_iters, damping=0.5)\n")], 'conformance')
+K('C09', 'lsmr-from-a-uniform-start', [(MI, "        v = lsmr(Q.T, o, atol=0, btol=0)[0]\n", "        v = lsmr(Q.T, o, atol=0, btol=0, x0=np.full(Q.shape[0], 1.0/Q.shape[0]))[0]\n")], 'variance-form')
+T('C09', 'lsmr-from-zero-spelled-out', [(MI, "        v = lsmr(Q.T, o, atol=0, btol=0)[0]\n", "        v = lsmr(Q.T, o, atol=0, btol=0, x0=np.zeros(Q.shape[0]))[0]\n")])
+
